@@ -631,14 +631,16 @@ func genC17(c *ctx) {
 			[]m.Cav{{Kind: "COrganization", ID: 1, Mask: 31}, {Kind: "CFeatureSet", RSS: []m.EntS{{K: "litefs-cloud", M: 31}}}, {Kind: "CClusters", RSS: c1}},
 		)
 	}
-	for i := 0; i < n; i++ {
-		nc := r.Intn(6)
-		set := make([]m.Cav, 0, nc)
-		for j := 0; j < nc; j++ {
-			set = append(set, mk(2))
-		}
-		if i < len(scopeScale) {
-			set = scopeScale[i] // scale: the helpers' answers for sets far beyond every small size
+	for i := 0; i < n+len(scopeScale); i++ {
+		var set []m.Cav
+		if i < n {
+			nc := r.Intn(6)
+			set = make([]m.Cav, 0, nc)
+			for j := 0; j < nc; j++ {
+				set = append(set, mk(2))
+			}
+		} else {
+			set = scopeScale[i-n] // scale: the helpers' answers for sets far beyond every small size
 		}
 		gs := macaroon.NewCaveatSet(m.CavsGo(set)...)
 		setCoq := m.CavsCoq(set)
